@@ -10,9 +10,9 @@
    hashlib.new(name, data).digest() is the Section variable [hashnew] with the
    assumed contract [hashnew_octets] (a digest is an octet string). *)
 From Coq Require Import Permutation.
-From Model Require Import Base PyVal B64 IntCodec TableTypes C13Json C13Thumb C13Sha256.
+From Model Require Import Base PyVal B64 IntCodec TableTypes C13Json C13Thumb C13Sha256 C13Heap.
 From Gen Require Import Tables.
-From Proofs Require Import C13Proofs C13Sort C13Ascii.
+From Proofs Require Import C13Proofs C13Sort C13Ascii C13HeapProofs.
 Open Scope N_scope.
 
 Section C13.
@@ -203,6 +203,31 @@ Section C13.
     as_dict k private params = Ok e -> dget e s_kid = kid_of k.
   Proof. exact kid_exported. Qed.
 
+  (* exports do not alias the key (model/C13Heap.v: dictionaries are objects on
+     a heap, as_dict returns a NEW object).  For a key that has its kid: after
+     ANY history of exports (any private flag, any params), arbitrary rewrites
+     by the application of any object it received, ensure_kid and thumbprint
+     calls, the key's own dictionary is the one it had — hence the same kid,
+     thumbprint and exports; and no object handed out is the key's own.
+     (Not implied by the theorems above: in the purely functional model of
+     C13Thumb.v an export cannot be written to at all.) *)
+  Theorem c13_export_no_alias : forall c priv a d steps s s',
+    dmem d s_kid = true ->
+    hget (s_heap s) a = Some d -> Forall (fun b => b <> a) (s_outs s) ->
+    run hashnew c priv a s steps = Ok s' ->
+    hget (s_heap s') a = Some d /\ Forall (fun b => b <> a) (s_outs s').
+  Proof. exact (export_no_alias hashnew). Qed.
+
+  (* every export is a function of the key's dictionary alone, delivered in a
+     fresh object *)
+  Theorem c13_export_function_of_state : forall c priv a s x s' d,
+    hget (s_heap s) a = Some d ->
+    run_step hashnew c priv a s (SAsDict (fst x) (snd x)) = Ok s' ->
+    exists e, as_dict {| ko_cls := c; ko_priv := priv; ko_dict := d |} (fst x) (snd x) = Ok e /\
+              hget (s_heap s') (fresh (s_heap s)) = Some e /\
+              s_outs s' = s_outs s ++ [fresh (s_heap s)].
+  Proof. exact (export_function_of_state hashnew). Qed.
+
   (* key sets: construction is ensure_kid on every key; constructing again or
      exporting leaves every key (and kid) as it is; every exported member
      dict carries its key's kid *)
@@ -280,6 +305,18 @@ Example c13_field_order_instance :
   key_fields ECCls <> rev (key_fields ECCls).
 Proof. split; [apply Permutation_rev | vm_compute; discriminate]. Qed.
 
+(* a history: export, the application deletes the kid and the key value in
+   what it got, ensure_kid, export again, overwrite that too *)
+Example c13_export_no_alias_instance :
+  let d := [(asc "k", PStr (asc "Zm9v")); (asc "kty", PStr (asc "oct")); (asc "kid", PStr (asc "k1"))] in
+  let s0 := {| s_heap := [(7, d)]; s_outs := [] |} in
+  dmem d s_kid = true /\
+  exists s', run sha_hashnew OctCls true 7 s0
+               [SAsDict None []; SEdit 0 []; SEnsureKid; SThumbprint; SAsDict (Some true) [(asc "use", PStr (asc "sig"))];
+                SEdit 1 [(asc "kid", PStr (asc "other"))]] = Ok s' /\
+             hget (s_heap s') 7 = Some d /\ s_outs s' = [8; 9] /\ hget (s_heap s') 8 = Some [].
+Proof. split; [reflexivity|]. eexists. split; [vm_compute; reflexivity|]. repeat split. Qed.
+
 (* a toy digest (identity on short inputs) to run the model end to end: kid
    assignment, idempotence, private/public view of an EC key with a short x *)
 Definition toy_hash (n : str) (x : bytes) : res bytes := Ok (firstn 6 x).
@@ -341,6 +378,8 @@ Print Assumptions c13_kid_never_overwritten.
 Print Assumptions c13_kid_is_thumbprint.
 Print Assumptions c13_kid_stable.
 Print Assumptions c13_kid_exported.
+Print Assumptions c13_export_no_alias.
+Print Assumptions c13_export_function_of_state.
 Print Assumptions c13_keyset.
 Print Assumptions c13_keyset_export_kids.
 Print Assumptions c13_validated_has_members.
